@@ -105,24 +105,15 @@ func (sess *UserSession) Move(w *imapserver.MoveWriter, numSet imap.NumSet, dest
 		destUIDs.AddNum(appendData.UID)
 		expunged[msg] = struct{}{}
 	})
-	seqNums := sess.mailbox.expungeLocked(expunged)
+	// The EXPUNGE updates are queued for every session of the mailbox,
+	// including this one: they are sent when the command completes.
+	sess.mailbox.expungeLocked(expunged)
 
-	err = w.WriteCopyData(&imap.CopyData{
+	return w.WriteCopyData(&imap.CopyData{
 		UIDValidity: dest.uidValidity,
 		SourceUIDs:  sourceUIDs,
 		DestUIDs:    destUIDs,
 	})
-	if err != nil {
-		return err
-	}
-
-	for _, seqNum := range seqNums {
-		if err := w.WriteExpunge(sess.mailbox.tracker.EncodeSeqNum(seqNum)); err != nil {
-			return err
-		}
-	}
-
-	return nil
 }
 
 func (sess *UserSession) Poll(w *imapserver.UpdateWriter, allowExpunge bool) error {
